@@ -47,6 +47,6 @@ RULE = ("gen: shard counts from {0..300, 2^k, 2^k±1, 65535..65537, random}; non
         "set incl. 0) with scripted supplier (fail / round-robin / explicit), deletion completions, metadata writes; "
         "non-trivial = more than one step, distinct by content")
 LEGS = [
-    {"name": "shard", "harness": "shard", "model": "shard", "n_quick": 120, "n_thorough": 6000,
+    {"name": "shard", "harness": "shard", "model": "shard", "n_quick": 120, "n_thorough": 4000,
      "corpus": "corpus/shard", "timeout": 600, "timeout_thorough": 3000},
 ]
